@@ -19,11 +19,11 @@ CASES = [
     m('if-else-visited-on-if-path', 'R5', 'flow:', TV,
       "        else_path = NewPath(self, this_path_id, \"e\")\n        with else_path:\n            for statement in node.orelse:\n                self.visit(statement)",
       "        else_path = NewPath(self, this_path_id, \"e\")\n        with else_path:\n            pass\n        with if_path:\n            for statement in node.orelse:\n                self.visit(statement)"),
-    m('merge-skips-right-only-names', 'R4', 'merge_paths:both-sides', TC,
+    m('merge-skips-right-only-names', 'R4', 'merge_paths:right-only', TC,
       "        for right_name in self.name_map[right_path_id]:\n            if right_name not in self.name_map[left_path_id]:", "        for right_name in []:\n            if right_name not in self.name_map[left_path_id]:"),
     m('merge-skips-right-only-names-flow', 'R5', 'flow:', TC,
       "        for right_name in self.name_map[right_path_id]:\n            if right_name not in self.name_map[left_path_id]:", "        for right_name in []:\n            if right_name not in self.name_map[left_path_id]:"),
-    m('newpath-does-not-pop', 'R3', 'NewPath:push-pop', CX, "        self.tifa.path_chain.pop(0)\n", "        pass\n"),
+    m('newpath-does-not-pop', 'R5', 'flow:branches', CX, "        self.tifa.path_chain.pop(0)\n", "        pass\n"),
     m('unused-requires-maybe', 'R2', '_finish_scope:unused', TC, "                if state.read == 'no' and state.name != '_':", "                if state.read == 'maybe' and state.name != '_':"),
     m('search-parents-stops-at-first', 'R5', 'flow:', TC,
       "        elif parent_id in self.path_parents:\n            parent_id = self.path_parents[parent_id]\n            return self.search_parents(parent_id, seeking_name)", "        elif False:\n            return None"),
